@@ -411,6 +411,8 @@ func (op *Element[T]) ReadFrom(r io.Reader) (n int64, err error) {
 			}
 
 			n += inc
+		} else {
+			op.MetaData = nil
 		}
 
 		inc, err = op.Value.ReadFrom(r)
